@@ -166,4 +166,45 @@ Section TQAcct.
       unfold tq_blocks. rewrite G. cbn [length repeat app]. rewrite <- app_assoc.
       eapply acct_app; [apply free_acct|]. apply acct_free.
   Qed.
+
+  Theorem tq_init_fail o :
+    exists oq o' ev, timerqueue_init std_tc std_hc qsz o = Ok (oq, o', ev) /\ (refused ev = true <-> oq = None).
+  Proof.
+    destruct (tq_init_spec qsz o) as (oq & o' & ev & E & Hn & Hsome).
+    exists oq, o', ev. split; auto. split.
+    - intros Hr. destruct oq as [q|]; auto. destruct (Hsome q eq_refl) as (Hf & _). congruence.
+    - intros ->. auto.
+  Qed.
+
+  Theorem tq_add_fail q id tv ptr o : tq_inv q -> rfind (tq_recs q) id = None -> qsmall q ->
+    exists c q' o' ev,
+      timerqueue_add std_tc std_hc rsz q id tv ptr o = Ok (c, q', o', ev) /\
+      (refused ev = true <-> c = None) /\ (c = None -> q' = q).
+  Proof.
+    intros I Hf Hs. destruct (tq_add_spec rsz q id tv ptr o I Hf Hs) as (c & q' & o' & ev & E & Hn & Hsome).
+    exists c, q', o', ev. split; auto. split; [split|].
+    - intros Hr. destruct c as [x|]; auto.
+      destruct (Hsome ltac:(discriminate)) as (_ & Hr' & _). congruence.
+    - intros ->. apply Hn. auto.
+    - intros H. apply Hn. auto.
+  Qed.
+
+  Theorem tq_delete_infallible q id : tq_inv q -> qsmall q -> In id (elems (tq_heap q)) ->
+    exists q' o' ev,
+      timerqueue_delete std_tc std_hc rsz q id all_refuse = Ok (q', o', ev) /\
+      tq_inv q' /\ Permutation (id :: elems (tq_heap q')) (elems (tq_heap q)) /\
+      rfind (tq_recs q') id = None.
+  Proof.
+    intros I Hs Hin. destruct (tq_delete_spec rsz q id all_refuse I Hs Hin) as (q' & o' & ev & E & A & B & C & _).
+    exists q', o', ev. auto.
+  Qed.
+
+  Theorem tq_getptr_infallible q tv : tq_inv q -> qsmall q ->
+    exists p q' o' ev, timerqueue_getptr std_tc std_hc rsz q tv all_refuse = Ok (p, q', o', ev) /\ tq_inv q'.
+  Proof.
+    intros I Hs. destruct (tq_getptr_spec rsz q tv all_refuse I Hs) as (p & q' & o' & ev & E & Hp).
+    exists p, q', o', ev. split; auto. destruct p.
+    - destruct Hp as (id & rec & _ & _ & _ & _ & _ & I' & _). exact I'.
+    - destruct Hp as (-> & _). exact I.
+  Qed.
 End TQAcct.
